@@ -32,4 +32,6 @@ def run(tier, seed):
 
 
 def replay(path):
-    return replay_family("C04", path, CFG)
+    from . import parworlds
+    rc = parworlds.replay_concurrent("C04", path)
+    return rc if rc is not None else replay_family("C04", path, CFG)
